@@ -94,6 +94,8 @@ pub struct Ctx {
     pub active: bool,
     pub width: u8,
     pub job_deadline: Option<std::time::Instant>,
+    /// set while an executor is being built from SymCell constants: compilation that runs past it is aborted
+    pub compile_deadline: Option<std::time::Instant>,
     /// the context under test has no output sink: `into_u8` values are not parked
     pub no_output: bool,
     /// set while native code that must not be unwound through (extern "sysv64" shims) is on the stack:
@@ -173,6 +175,7 @@ pub fn init(kind: Kind, timeout_ms: u64, limits: Limits, hash_mode: HashMode, io
                     active: false,
                     width: 8,
                     job_deadline: None,
+                    compile_deadline: None,
                     no_output: false,
                     no_unwind: false,
                     pending_abort: None,
@@ -321,6 +324,14 @@ pub fn feasible(extra: &[Lit], model: Option<&mut Witness>) -> Answer {
 }
 
 pub fn count_op() {
+    let late = with(|c| match c.compile_deadline {
+        Some(d) if c.ops % 64 == 0 => std::time::Instant::now() > d,
+        _ => false,
+    });
+    if late {
+        with(|c| c.compile_deadline = None);
+        abort(Abort::Truncated("compilation exceeded its time cap".into()));
+    }
     let (over, mem) = with(|c| {
         c.ops += 1;
         (c.active && c.ops > c.limits.max_ops, c.active && (c.ar.nodes.len() > 1_500_000 || c.ar.lin_entries > 12_000_000))
